@@ -23,8 +23,9 @@ func init() {
 		Explain: "Behaviour over all presence combinations is not decided; decided are the structural clauses of parseAlert for every alert: " +
 			"(ALERT) the informs-something predicate is false exactly when agency, route, known route type, identifiable trip and stop are all absent (extracted decision table); a trip is identifiable exactly by id or by route+direction+start time+start date; selector entities are appended, one per accepted selector and in selector order, only under the predicate; on the identifiable edge every path also appends the trip (built from the selector's descriptor, not-in-message) and otherwise the trip id is cleared; route fallback entities are appended only under !informedRoutes[route] evaluated after the selector loop, the bookkeeping maps only grow, the fallback direction is the single named one; " +
 			"(A3) selector fields are bound to their wire fields; (SCAN) the loops of parseAlert that add an entity per element are not left by a break; (ENUM) the decoders into enumerations reached from ParseRealtime answer only with declared constants (a route type outside the table is Unknown); (MERGE) alert trips are merged into Trips; (G6) fallback order does not depend on map iteration. " +
-			"Not decided: combinatorics of overlapping selectors beyond these clauses. From the true edge of the informs-something predicate every path to the next selector appends the entity; the direction recorded for a route-only trip descriptor binds to the descriptor's direction_id.",
+			"Not decided: combinatorics of overlapping selectors beyond these clauses. From the true edge of the informs-something predicate every path to the next selector appends the entity; the direction recorded for a route-only trip descriptor binds to the descriptor's direction_id. (TID) a start time / start date of a selector's trip descriptor is dropped only when absent or not matching its pattern, so identifiable trips stay identifiable.",
 		Rules: []Rule{
+			{Name: "TID", Doc: "whether a selector names an identifiable trip depends on its start time / start date: they are dropped only when absent or not matching their pattern (hours past 23 are valid)", MinInstances: 2, Run: func(c *Ctx) { runStartAcceptance(c, "TID") }},
 			{Name: "SCAN", Doc: "a loop that does something for each element is not left early (no break out of a processing loop)", MinInstances: 1, Run: func(c *Ctx) { runFullScan(c, realtimeFns(c), "SCAN") }},
 			{Name: "ALERT", Doc: "predicates, append-under-predicate, keep/clear pairing, fallback guard", MinInstances: 7, Run: runAlertRules},
 			{Name: "LOOPVAR", Doc: "no pointer to a per-loop (go 1.18) iteration variable is kept in the result: each entity gets its own copy", MinInstances: 0, Run: func(c *Ctx) { runLoopVarAlias(c, realtimeFns(c), "LOOPVAR") }},
